@@ -144,7 +144,8 @@ def less (a b : DV) : Bool :=
   | some x, some y =>
     match Semver.vcompare x y with
     | .ok c => if c != 0 then c < 0 else cmpBytes a.v.key.version b.v.key.version < 0
-    | _ => false                  -- excluded by `comparable` before sorting
+    | .err => false               -- excluded by `comparable` before sorting
+    | .panic => false
   | none, none => cmpBytes a.v.key.version b.v.key.version < 0
 
 def cmpOK (a b : DV) : Bool :=
